@@ -231,10 +231,10 @@ Proof.
       eapply ospec_set with (old := SNil) (content := None); eauto.
       * apply sres_of_fin; auto. apply fin_nil.
       * unfold p_ret. rewrite abs_pk, Len, Eb, abs_pl, Er. apply peq_pointwise; reflexivity.
-    + binv E0 as E2 E3. rdinv E2. cbn [app].
+    + binv E0 as E2 E3. rdinv E2. cbn [app]. rewrite Hmd in E3.
+      binv E3 as E4 E5. rdinv E4. cbn [app].
       assert (Wo : wf_slice h FRet (SArr l n c0)) by (rewrite <- Er; apply W).
-      assert (Wo1 : wf_slice h1 FRet (SArr l n c0)) by (eapply wf_slice_ext; eauto).
-      assert (R2 := merge_append_spec _ _ _ _ _ _ _ Wo1 E3).
+      assert (R2 := h_lit_spec _ _ _ _ _ _ SNil E5).
       rewrite (sres_nil_rd_old _ _ _ _ _ _ _ _ R1 Wo) in R2.
       assert (R := sres_seq_fresh _ _ _ _ _ _ _ _ _ _ R1 R2).
       eapply ospec_set with (old := SNil); eauto using shape_nil.
